@@ -156,19 +156,38 @@ theorem CapMono_setAlloc {s : St} {a : Nat} {l l1 : RawList} {lv : Nat}
   · rw [if_neg hab] at hb''
     exact ⟨lb', hb'', Nat.le_refl _⟩
 
+/-- The one place where the list is not a vector. Both `==` answer `true`
+    without looking at an element when the two operands are the same `Arc`
+    (`Arc::ptr_eq`); a vector compares element by element. The two differ
+    exactly when the list holds an element that is not equal to itself — a NaN
+    in a `List[f64]`: `l == l` is `true`, `v == v` on the vector is `false`. -/
+def ReflShortcut (t : Spec) : Op → Prop
+  | .eq a b _ => ∃ x xs, t.vec a = some (x, xs) ∧ t.vec b = some (x, xs) ∧ listEq xs xs = false
+  | _ => False
+
+/-- the result is the shared vectors' result — or the step is the reflexive
+    shortcut on a list holding a NaN and answers `true` -/
+def OutOk (t : Spec) (op : Op) (o : Out) : Prop :=
+  o = (specStep t op).1 ∨ (ReflShortcut t op ∧ o = .bool true)
+
 /-- what one step must achieve -/
 def Good (sz : Nat) (s : St) (t : Spec) (op : Op) : Prop :=
   ((step sz s op).1 = .fault .panic ∧ (step sz s op).2 = s ∧ PanicCond s op) ∨
-  (eraseCap op (step sz s op).1 = (specStep t op).1 ∧ Inv sz (step sz s op).2 ∧
+  (OutOk t op (eraseCap op (step sz s op).1) ∧ Inv sz (step sz s op).2 ∧
     Rel (step sz s op).2 (specStep t op).2 ∧ CapMono s (step sz s op).2)
 
-theorem good_of_ok {sz : Nat} {s s' : St} {t : Spec} {op : Op} {o : Out}
-    (h : stepE sz s op = .ok (o, s')) (ho : eraseCap op o = (specStep t op).1)
+theorem good_of_ok' {sz : Nat} {s s' : St} {t : Spec} {op : Op} {o : Out}
+    (h : stepE sz s op = .ok (o, s')) (ho : OutOk t op (eraseCap op o))
     (inv : Inv sz s') (rel : Rel s' (specStep t op).2) (cm : CapMono s s') : Good sz s t op := by
   refine Or.inr ?_
   unfold step
   rw [h]
   exact ⟨ho, inv, rel, cm⟩
+
+theorem good_of_ok {sz : Nat} {s s' : St} {t : Spec} {op : Op} {o : Out}
+    (h : stepE sz s op = .ok (o, s')) (ho : eraseCap op o = (specStep t op).1)
+    (inv : Inv sz s') (rel : Rel s' (specStep t op).2) (cm : CapMono s s') : Good sz s t op :=
+  good_of_ok' h (Or.inl ho) inv rel cm
 
 theorem good_of_panic {sz : Nat} {s : St} {t : Spec} {op : Op}
     (h : stepE sz s op = .error .panic) (pc : PanicCond s op) : Good sz s t op := by
@@ -182,8 +201,10 @@ theorem good_of_bad {sz : Nat} {s : St} {t : Spec} {op : Op}
     (inv : Inv sz s) (rel : Rel s t) : Good sz s t op := by
   refine Or.inr ?_
   unfold step
-  rw [h, hsp]
-  refine ⟨?_, inv, rel, CapMono_refl s⟩
+  rw [h]
+  unfold OutOk
+  rw [hsp]
+  refine ⟨Or.inl ?_, inv, rel, CapMono_refl s⟩
   cases op <;> rfl
 
 theorem withLock_bad {s : St} {h : Nat} (hs : ∀ a, s.slots[h]? ≠ some (some a))
@@ -251,7 +272,7 @@ theorem good_contains (inv : Inv sz s) (rel : Rel s t) (h v : Nat) : Good sz s t
   rcases slot_dec s h with ⟨a, hs⟩ | hs
   · have ⟨l, hl⟩ := inv.slot h a hs
     have hw := (inv.raw a l hl).1.wf
-    refine good_of_ok (o := .bool (l.elems.contains v)) (s' := s) ?_ ?_ ?_ ?_ (CapMono_refl s)
+    refine good_of_ok (o := .bool (anyEq v l.elems)) (s' := s) ?_ ?_ ?_ ?_ (CapMono_refl s)
     · exact withLock_read' inv hs hl (by simp only [rawContains_eq hw])
     · simp only [specStep, vec_ok rel hs hl, eraseCap]
     · exact inv
@@ -264,7 +285,7 @@ theorem good_index (inv : Inv sz s) (rel : Rel s t) (h v : Nat) : Good sz s t (.
     have hw := (inv.raw a l hl).1.wf
     refine good_of_ok (o := .opt (firstIdx v l.elems 0)) (s' := s) ?_ ?_ ?_ ?_ (CapMono_refl s)
     · exact withLock_read' inv hs hl (by simp only [rawIndex_eq hw])
-    · simp only [specStep, vec_ok rel hs hl, eraseCap, firstIdx_spec, Nat.zero_add]
+    · simp only [specStep, vec_ok rel hs hl, eraseCap]
     · exact inv
     · simp only [specStep, vec_ok rel hs hl]; exact rel
   · exact good_of_bad (withLock_bad hs _) (by simp only [specStep, vec_bad rel hs]) inv rel
@@ -578,15 +599,15 @@ theorem setAlloc_comm (s : St) {x y : Nat} (h : x ≠ y) (v w : Option RawList) 
     never dead-locks, leaves the store as it was, answers list equality -/
 theorem eqWith_ok (inv : Inv sz s) {x y : Nat} {lx ly : RawList}
     (hx : s.getAlloc x = some lx) (hy : s.getAlloc y = some ly)
-    (cmp : RawList → RawList → E Bool)
-    (hcmp : cmp { lx with locked := true } { ly with locked := true } = .ok (decide (lx.elems = ly.elems))) :
-    eqWith true [.self_, .other] (0, 1) cmp s x y = .ok (.bool (decide (lx.elems = ly.elems)), s) := by
+    (cmp : RawList → RawList → E Bool) {r : Bool}
+    (hcmp : cmp { lx with locked := true } { ly with locked := true } = .ok r) :
+    eqWith true [.self_, .other] (0, 1) cmp s x y = .ok (.bool (if x = y then true else r), s) := by
   unfold eqWith
   by_cases hxy : x = y
   · subst hxy
-    rw [hx] at hy; injection hy with hy; subst hy
     simp
-  · have hne : (x == y) = false := by simp [hxy]
+  · rw [if_neg hxy]
+    have hne : (x == y) = false := by simp [hxy]
     simp only [hne, Bool.and_false, Bool.false_eq_true, if_false, List.map, resolve]
     have hkx := (inv.raw x lx hx).2.1
     have hky := (inv.raw y ly hy).2.1
@@ -624,15 +645,15 @@ theorem eqWith_ok (inv : Inv sz s) {x y : Nat} {lx ly : RawList}
     address-ordered form of `ErasedList::eq` -/
 theorem eqWith_ok_rev (inv : Inv sz s) {x y : Nat} {lx ly : RawList}
     (hx : s.getAlloc x = some lx) (hy : s.getAlloc y = some ly)
-    (cmp : RawList → RawList → E Bool)
-    (hcmp : cmp { lx with locked := true } { ly with locked := true } = .ok (decide (lx.elems = ly.elems))) :
-    eqWith true [.other, .self_] (1, 0) cmp s x y = .ok (.bool (decide (lx.elems = ly.elems)), s) := by
+    (cmp : RawList → RawList → E Bool) {r : Bool}
+    (hcmp : cmp { lx with locked := true } { ly with locked := true } = .ok r) :
+    eqWith true [.other, .self_] (1, 0) cmp s x y = .ok (.bool (if x = y then true else r), s) := by
   unfold eqWith
   by_cases hxy : x = y
   · subst hxy
-    rw [hx] at hy; injection hy with hy; subst hy
     simp
-  · have hne : (x == y) = false := by simp [hxy]
+  · rw [if_neg hxy]
+    have hne : (x == y) = false := by simp [hxy]
     simp only [hne, Bool.and_false, Bool.false_eq_true, if_false, List.map, resolve]
     have hkx := (inv.raw x lx hx).2.1
     have hky := (inv.raw y ly hy).2.1
@@ -669,7 +690,7 @@ theorem eqWith_ok_rev (inv : Inv sz s) {x y : Nat} {lx ly : RawList}
     this — hence every theorem of the property — stops checking. -/
 theorem typedEq_ok (inv : Inv sz s) {x y : Nat} {lx ly : RawList}
     (hx : s.getAlloc x = some lx) (hy : s.getAlloc y = some ly) :
-    typedEq s x y = .ok (.bool (decide (lx.elems = ly.elems)), s) := by
+    typedEq s x y = .ok (.bool (if x = y then true else listEq lx.elems ly.elems), s) := by
   have wx := (inv.raw x lx hx).1.wf
   have wy := (inv.raw y ly hy).1.wf
   have hc := rawEqTyped_eq (a := { lx with locked := true }) (b := { ly with locked := true }) wx wy
@@ -690,7 +711,7 @@ theorem typedEq_ok (inv : Inv sz s) {x y : Nat} {lx ly : RawList}
     never dead-locks, restores the store, answers list equality -/
 theorem erasedEq_ok (inv : Inv sz s) {x y : Nat} {lx ly : RawList}
     (hx : s.getAlloc x = some lx) (hy : s.getAlloc y = some ly) :
-    erasedEq s x y = .ok (.bool (decide (lx.elems = ly.elems)), s) := by
+    erasedEq s x y = .ok (.bool (if x = y then true else listEq lx.elems ly.elems), s) := by
   have wx := (inv.raw x lx hx).1.wf
   have wy := (inv.raw y ly hy).1.wf
   have hc := rawEqErased_eq (a := { lx with locked := true }) (b := { ly with locked := true }) wx wy
@@ -714,7 +735,8 @@ theorem good_eq (inv : Inv sz s) (rel : Rel s t) (a b : Nat) (typed : Bool) :
       have ⟨ly, hy⟩ := inv.slot b y hsb
       have wx := (inv.raw x lx hx).1.wf
       have wy := (inv.raw y ly hy).1.wf
-      refine good_of_ok (o := .bool (decide (lx.elems = ly.elems))) (s' := s) ?_ ?_ inv ?_ (CapMono_refl s)
+      refine good_of_ok' (o := .bool (if x = y then true else listEq lx.elems ly.elems)) (s' := s) ?_ ?_ inv ?_
+        (CapMono_refl s)
       · simp only [stepE, slot_ok hsa, slot_ok hsb]
         cases typed with
         | true =>
@@ -723,7 +745,18 @@ theorem good_eq (inv : Inv sz s) (rel : Rel s t) (a b : Nat) (typed : Bool) :
         | false =>
           simp only [Bool.false_eq_true, if_false]
           exact erasedEq_ok inv hx hy
-      · simp only [specStep, vec_ok rel hsa hx, vec_ok rel hsb hy, eraseCap]
+      · by_cases hxy : x = y
+        · subst hxy
+          rw [hx] at hy; injection hy with hy; subst hy
+          cases hq : listEq lx.elems lx.elems with
+          | true =>
+            refine Or.inl ?_
+            simp only [specStep, vec_ok rel hsa hx, vec_ok rel hsb hx, eraseCap, if_true, hq]
+          | false =>
+            refine Or.inr ⟨⟨x, lx.elems, vec_ok rel hsa hx, vec_ok rel hsb hx, hq⟩, ?_⟩
+            simp only [eraseCap, if_true]
+        · refine Or.inl ?_
+          simp only [specStep, vec_ok rel hsa hx, vec_ok rel hsb hy, eraseCap, if_neg hxy]
       · simp only [specStep, vec_ok rel hsa hx, vec_ok rel hsb hy]; exact rel
     · refine good_of_bad ?_ ?_ inv rel
       · simp only [stepE, slot_ok hsa, slot_bad hsb]
@@ -1348,21 +1381,29 @@ def specRunSt : Spec → List Op → Spec
   | t, [] => t
   | t, op :: rest => specRunSt (specStep t op).2 rest
 
-/-- forward simulation along a whole history that meets no capacity overflow -/
+/-- the history never compares a vector holding a NaN with itself (through the
+    same handle or through two aliases) — stated on the shared vectors -/
+def NoReflShortcut : Spec → List Op → Prop
+  | _, [] => True
+  | t, op :: rest => ¬ ReflShortcut t op ∧ NoReflShortcut (specStep t op).2 rest
+
+/-- forward simulation along a whole history that meets no capacity overflow
+    and never compares a vector holding a NaN with itself -/
 theorem run_sim {sz : Nat} : ∀ (ops : List Op) {s : St} {t : Spec}, Inv sz s → Rel s t →
-    (∀ o ∈ run sz s ops, o ≠ .fault .panic) →
+    (∀ o ∈ run sz s ops, o ≠ .fault .panic) → NoReflShortcut t ops →
     List.zipWith eraseCap ops (run sz s ops) = specRun t ops ∧
       Rel (runSt sz s ops) (specRunSt t ops)
-  | [], _, _, _, rel, _ => ⟨rfl, rel⟩
-  | op :: rest, s, t, inv, rel, hp => by
+  | [], _, _, _, rel, _, _ => ⟨rfl, rel⟩
+  | op :: rest, s, t, inv, rel, hp, hq => by
     have hp0 : (step sz s op).1 ≠ .fault .panic := hp _ (by simp [run])
     have hp1 : ∀ o ∈ run sz (step sz s op).2 rest, o ≠ .fault .panic :=
       fun o ho => hp o (by simp [run, ho])
-    rcases good_step inv rel op with ⟨h, _, _⟩ | ⟨h1, h2, h3, _⟩
+    rcases good_step inv rel op with ⟨h, _, _⟩ | ⟨h1 | ⟨hr, _⟩, h2, h3, _⟩
     · exact absurd h hp0
-    · have ⟨ih1, ih2⟩ := run_sim rest h2 h3 hp1
+    · have ⟨ih1, ih2⟩ := run_sim rest h2 h3 hp1 hq.2
       refine ⟨?_, ih2⟩
       simp only [run, specRun, List.zipWith_cons_cons, h1, ih1]
+    · exact absurd hr hq.1
 
 theorem specStep_no_lock_fault (t : Spec) (op : Op) :
     (specStep t op).1 ≠ .fault .deadlock ∧ (specStep t op).1 ≠ .fault .ub := by
@@ -1379,11 +1420,14 @@ theorem eraseCap_fault {op : Op} {o : Out} {f : Fault} (h : o = .fault f) : eras
 /-- no operation dead-locks or touches freed / uninitialised memory -/
 theorem step_no_lock_fault {sz : Nat} {s : St} (inv : Inv sz s) (op : Op) :
     (step sz s op).1 ≠ .fault .deadlock ∧ (step sz s op).1 ≠ .fault .ub := by
-  rcases good_step inv (Rel_abs s) op with ⟨h, _, _⟩ | ⟨h, _, _, _⟩
+  rcases good_step inv (Rel_abs s) op with ⟨h, _, _⟩ | ⟨h | ⟨_, h⟩, _, _, _⟩
   · rw [h]; simp
   · have ⟨n1, n2⟩ := specStep_no_lock_fault (absSpec s) op
     constructor
     · intro hd; rw [eraseCap_fault hd] at h; exact n1 h.symm
     · intro hd; rw [eraseCap_fault hd] at h; exact n2 h.symm
+  · constructor
+    · intro hd; rw [eraseCap_fault hd] at h; cases h
+    · intro hd; rw [eraseCap_fault hd] at h; cases h
 
 end RotoV.ListM
